@@ -58,7 +58,7 @@ def _ops_history(r, n_modules_hint: int = 6) -> list[dict]:  # noqa: ANN001
 
 
 def make_cases(seed: int, tier: str, n_cases: int | None = None) -> list[dict]:
-    n = n_cases or (32 if tier == "quick" else 1200)
+    n = n_cases or (32 if tier == "quick" else 600)
     cases = []
     for idx in range(n):
         cs = H(seed, PROP, tier, idx)
